@@ -1,5 +1,5 @@
 ----------------------------- MODULE Trace_E04 -----------------------------
-EXTENDS IndexExt, Json, IOUtils
+EXTENDS IndexExt, Json, IOUtils, TLC
 Rec == ndJsonDeserialize(IOEnv.TRACE)
 VARIABLES l, bad, free
 vars == <<l, bad, free>>
@@ -17,7 +17,16 @@ JudgeSections(e) ==
     /\ FlatOutcomeOK(WithSection(e.args.p0, e.args.k, <<>>), e.out.flat2)              \* after set_sourcemap(None)
     /\ e.out.url = e.args.newurl /\ e.out.file = e.args.newfile                         \* setters are reported ...
     /\ e.out.url_written = e.args.newurl /\ e.out.file_written = e.args.newfile         \* ... and written out
+\* flatten_and_rewrite is the composition of the two specified operations: IndexMap!FlattenIdx, then Rewrite!RewriteOK
+\* (judged when the flattened tokens are strictly ordered: among tokens sharing a position the interning order,
+\* hence the ids, follow the crate's unstable sort)
+JudgeFlattenRewrite(e) ==
+    LET f == FlattenIdx(e.args.p0) IN
+    IF ~f.ok THEN e.out.k = "err"
+    ELSE /\ e.out.k = "ok"
+         /\ (StrictlySorted(f.m.toks) => RewriteOK(f.m @@ [debug_id |-> <<>>], e.args.opts, e.out.p2))
 Judge(e) == CASE e.op = "typed" -> JudgeTyped(e)
+              [] e.op = "flatten_rewrite" -> JudgeFlattenRewrite(e)
               [] e.op = "sections" -> JudgeSections(e)
               [] OTHER -> FALSE
 Free(e) == FALSE
